@@ -3,6 +3,7 @@ use std::io::{self, Write};
 use serde_json::Value;
 use simlib::{
     grad::{C02Engine, C03Engine, C15Engine},
+    builder::C18Engine,
     hist::C01Engine,
     runner::{install_panic_hook, replay, run_range, Engine, Tier},
 };
@@ -49,6 +50,7 @@ fn main() {
     let args: Vec<String> = std::env::args().collect();
     let code = match args.get(1).map(String::as_str) {
         Some("c01") => drive::<C01Engine>(&args),
+        Some("c18") => drive::<C18Engine>(&args),
         Some("c02") => drive::<C02Engine>(&args),
         Some("c03") => drive::<C03Engine>(&args),
         Some("c15") => drive::<C15Engine>(&args),
